@@ -380,6 +380,10 @@ def explore(tier, res):
                  'real_backend_runs (sampling, OS-scheduled)': len(real)})
     res.coverage['exploration'] = info
     records = list(replayed) + [r for x, _ in dfs for r in x] + list(rand) + list(dsrecs) + list(real)
+    for r in records:           # TLA+ cannot take strings apart
+        if r['end'].startswith('raised_other'):
+            r['end_detail'] = r['end']
+            r['end'] = 'raised_other'
     for i, r in enumerate(records):
         r['id'] = i + 1
     return records
